@@ -25,7 +25,7 @@ typedef struct {
   sv_t path;
   _Bool has_search; sv_t search;   /* without '?' */
   _Bool has_hash; sv_t hash;       /* without '#' */
-  _Bool pending_at;                /* parser-only state: credentials and '@' written, the host not yet (the buffer ends after the '@') */
+  _Bool pending_at;                /* parser-only transient: credentials written (P2: and the '@'), the host not yet; the buffer ends there */
 } agg_view_t;
 
 static inline _Bool wf_no_byte(const char *p, size_t a, size_t b, char c1, char c2, char c3, char c4, char c5) {
@@ -65,8 +65,14 @@ static inline _Bool agg_wf_view(const struct url_aggregator *u, agg_view_t *v) {
     }
     _Bool cred = hs > pe + 2;
     v->pending_at = 0;
-    if (cred) {
-      if (hs >= n || b->d[hs] != '@') return 0;     /* '@' terminates the credentials */
+    if (cred && hs == n) {
+      /* parser-only transient P1: update_base_authority() has copied the base's credentials, update_host_to_base_host() has
+       * not yet added the '@' and the host; the buffer ends with the credentials */
+      if (!(he == hs && ps == hs && c->port == OMITTED)) return 0;
+      v->pending_at = 1;
+      v->host = (sv_t){b->d + hs, 0};
+    } else if (cred) {
+      if (b->d[hs] != '@') return 0;                /* '@' terminates the credentials */
       if (he < hs + 1) return 0;
       v->host = (sv_t){b->d + hs + 1, he - (hs + 1)};
     } else {
@@ -76,9 +82,9 @@ static inline _Bool agg_wf_view(const struct url_aggregator *u, agg_view_t *v) {
     /* a ':' in the host only inside brackets (IPv6): a host that does not start with '[' has no ':' */
     if (!(v->host.n > 0 && v->host.p[0] == '[') && !wf_no_byte(v->host.p, 0, v->host.n, ':', ':', ':', ':', ':')) return 0;
     /* credentials or port require a non-empty host (URL Standard: cannot-have-a-username/password/port) ... */
-    if ((cred || c->port != OMITTED) && v->host.n == 0) {
-      /* ... except inside the parser between the authority and host states: append_base_username/password have written the
-       * credentials and the '@', update_base_hostname() has not run yet, and nothing follows the '@' (the buffer ends there) */
+    if ((cred || c->port != OMITTED) && v->host.n == 0 && !v->pending_at) {
+      /* ... except (transient P2) inside the parser between the authority and host states: append_base_username/password have
+       * written the credentials and the '@', update_base_hostname() has not run yet, and the buffer ends after the '@' */
       if (!(cred && c->port == OMITTED && he == n)) return 0;
       v->pending_at = 1;
     }
